@@ -38,7 +38,7 @@ func Play(c *rig.Ctx, w *World, ops []Op) (*Step, error) {
 			switch op.Op {
 			case "sync":
 				w.SetUp(op.Up)
-				opErr = w.Sync(op.Servers, op.Policies)
+				opErr = w.SyncX(op.Servers, op.Policies, op.Extra)
 				workers = w.EnabledInSpec()
 			case "status":
 				if e, ok := w.Load(op.N); ok {
